@@ -185,8 +185,10 @@ func runServerMsgChain(chain []int) (trace []string, result string) {
 	for i, b := range chain {
 		exec.Use(serverMsgStage(tr, i, b))
 	}
+	// two requests one after the other through the same executor: the chain must behave the same for the second
 	resp := exec.HandleRequest(context.WithValue(context.Background(), ctxMark{}, "k"), mkReq("m"))
-	return tr.ev, respID(resp, nil)
+	resp2 := exec.HandleRequest(context.WithValue(context.Background(), ctxMark{}, "k"), mkReq("n"))
+	return tr.ev, respID(resp, nil) + "|" + respID(resp2, nil)
 }
 
 // ---------- server batch-item chain ----------
@@ -259,7 +261,8 @@ func runServerItemChain(chain []int) (trace []string, result string) {
 		exec.BatchItemUse(serverItemStage(tr, i, b))
 	}
 	resp := exec.HandleRequest(context.WithValue(context.Background(), ctxMark{}, "k"), mkReq("m"))
-	return tr.ev, respID(resp, nil)
+	resp2 := exec.HandleRequest(context.WithValue(context.Background(), ctxMark{}, "k"), mkReq("n"))
+	return tr.ev, respID(resp, nil) + "|" + respID(resp2, nil)
 }
 
 // ---------- client chain ----------
@@ -326,9 +329,10 @@ func runClientChain(chain []int) (trace []string, result string, err error) {
 		return nil, "", derr
 	}
 	resp, rerr := cl.Roundtrip(context.WithValue(context.Background(), ctxMark{}, "k"), mkReq("m"))
+	resp2, rerr2 := cl.Roundtrip(context.WithValue(context.Background(), ctxMark{}, "k"), mkReq("n"))
 	_ = cl.Close()
 	<-srvDone
-	return tr.ev, respID(resp, rerr), nil
+	return tr.ev, respID(resp, rerr) + "|" + respID(resp2, rerr2), nil
 }
 
 func runC19(c *vlib.Check) {
@@ -361,13 +365,15 @@ func runC19(c *vlib.Check) {
 			chain := all[i]
 			var want []string
 			hideCtx := k.name == "client"
-			res := refRun(chain, 0, "k", "m", &want, func(ctx, msg string) string {
+			core := func(ctx, msg string) string {
 				if hideCtx {
 					ctx = "-"
 				}
 				want = append(want, fmt.Sprintf("H(%s,%s)", ctx, msg))
 				return "r:" + msg
-			})
+			}
+			res := refRun(chain, 0, "k", "m", &want, core)
+			res += "|" + refRun(chain, 0, "k", "n", &want, core)
 			name := k.name + " " + chainName(chain)
 			c.Eval([]byte(name), len(chain) > 0)
 			if i%301 == 0 {
